@@ -108,8 +108,9 @@ def build_dir(flavour):
     return d
 
 
-def prune(keep=3):
-    """Keep only the most recently used tree hashes."""
+def prune(keep=4, min_age_s=3 * 3600):
+    """Remove build directories of tree hashes that have not been used for a while (never one that may be in use by a
+    concurrently running check: only directories untouched for `min_age_s`, and the `keep` newest always stay)."""
     if not os.path.isdir(BUILD):
         return
     cur = tree_hash()
@@ -119,8 +120,10 @@ def prune(keep=3):
         if os.path.isdir(p) and len(name) == 16 and name != cur:
             dirs.append((os.path.getmtime(p), p))
     dirs.sort(reverse=True)
-    for _, p in dirs[keep - 1:]:
-        subprocess.call(["rm", "-rf", p])
+    now = time.time()
+    for mt, p in dirs[keep - 1:]:
+        if now - mt > min_age_s:
+            subprocess.call(["rm", "-rf", p])
 
 
 class BuildError(Exception):
